@@ -7,10 +7,12 @@
 #include "common.h"
 
 #ifdef VF_THOROUGH
-#define MAXN 5
+#define MAXN 4
+#define MAXR 3
 #define MAXU 5
 #else
 #define MAXN 3
+#define MAXR 2
 #define MAXU 4
 #endif
 
@@ -75,15 +77,16 @@ extern "C" void c31_uri_decode_arbitrary(void)
 extern "C" void c31_rfc1738_roundtrip(void)
 {
     vf_quiet();
-    const unsigned n = (unsigned)vf_concretize(vf_range(0, MAXN, "len"));
+    const unsigned n = (unsigned)vf_concretize(vf_range(0, MAXR, "len"));
     char *in = (char *)xmalloc(n + 1);
     for (unsigned i = 0; i < n; ++i) { in[i] = (char)vf_nondet_u8("byte"); vf_assume(in[i] != 0); }
     in[n] = 0;
     static const int flagSets[] = {RFC1738_ESCAPE_UNSAFE | RFC1738_ESCAPE_CTRLS, RFC1738_ESCAPE_ALL, RFC1738_ESCAPE_UNSAFE, RFC1738_ESCAPE_ALL | RFC1738_ESCAPE_NOSPACE};
     const int flags = flagSets[vf_concretize(vf_range(0, 3, "flags"))];
     // call twice so that the static buffer reuse path is covered as well
-    const unsigned m = (unsigned)vf_concretize(vf_range(0, 1, "prelen"));
-    char pre[2] = {0, 0}; if (m) { pre[0] = (char)vf_nondet_u8("prebyte"); vf_assume(pre[0] != 0); }
+    // (previous string: "", one character that is copied, one that grows to %XX)
+    const unsigned m = (unsigned)vf_concretize(vf_range(0, 2, "pre"));
+    char pre[2] = {0, 0}; if (m) pre[0] = m == 1 ? 'a' : '%';
     (void)rfc1738_do_escape(pre, flags);
     char *e = rfc1738_do_escape(in, flags);
     const size_t el = strlen(e);
